@@ -38,9 +38,8 @@ func (c *CCommentState) NextToken(
 		str := c.GetMultiLineComment(scanner)
 		return tokenizers.NewToken(tokenizers.Comment, "/*"+str, line, column)
 	} else {
-		if !utilities.CharValidator.IsEof(secondSymbol) {
-			scanner.Unread()
-		}
+		// Return the second symbol, or the end-of-input slot consumed instead of it.
+		scanner.Unread()
 		if !utilities.CharValidator.IsEof(firstSymbol) {
 			scanner.Unread()
 		}
